@@ -49,7 +49,7 @@ def origin(cfg, local, argc, depth=8, seen=None, locals_ty=None):
     if local in seen or depth == 0:
         return "unknown"
     seen.add(local)
-    locals_ty = locals_ty or cfg.body.mir["locals"]
+    locals_ty = locals_ty or cfg.locals
     if 1 <= local <= argc:
         return "copy" if locals_ty[local].startswith("&") else "shared"
     kinds = set()
